@@ -4,5 +4,7 @@ import Enc.Props.C03
 import Enc.Props.C07
 import Enc.Props.C12
 import Enc.Props.C16
+import Enc.Props.C18
+import Enc.Driver.Iso
 import Enc.Driver.Ascii
 import Enc.Driver.Proto
